@@ -76,7 +76,14 @@ SumDiffOK ==
   IN /\ Ln.k \in ClassOf3(res.k)
      /\ res.k \in {"clean", "diff"} => Recs5(Ln.recs) = res.recs
 
+ItemsSumAsSpecified ==
+  \A i \in 1..Len(Ln.items) :
+    ("sumrecs" \notin DOMAIN Ln.items[i]) \/
+    LET sm == SumOp(FilesOf(Ln.items[i].files), Ln.sel, Ln.f, Ln.u)
+    IN Ln.items[i].sumk \in ClassOf3(sm.k) /\ (sm.k = "ok" => Recs3(Ln.items[i].sumrecs) = AllSeriesRecs(sm.ts, 1))
+
 GlobSumDiffOK ==
+  ~ItemsSumAsSpecified \/
   LET items == [i \in 1..Len(Ln.items) |-> <<FilesOf(Ln.items[i].files), FileOf(Ln.items[i].dst)>>]
       res == GlobSumDiffOp(items, Ln.sel, Ln.f, Ln.u)
   IN /\ Ln.k \in ClassOf3(res.k)
@@ -86,6 +93,8 @@ SumOK ==
   LET res == SumOp(FilesOf(Ln.files), Ln.sel, Ln.f, Ln.u)
   IN /\ Ln.k \in ClassOf3(res.k)
      /\ res.k = "ok" => Recs3(Ln.recs) = AllSeriesRecs(res.ts, 1)
+     \* the header shown is the first matched file's (the per-file reads run concurrently, the result does not depend on it)
+     /\ (res.k = "ok" /\ "hdr" \in DOMAIN Ln) => Ln.hdr = res.cfg.method
 
 ViewOK ==
   LET res == ViewOp(FileOf(Ln.src), Ln.sel, Ln.f, Ln.u)
